@@ -76,6 +76,9 @@ VARIANT_FLAGS = {
 SAN_CXX = {"plain": [], "asan": ["-fsanitize=address", "-fsanitize=undefined", "-fno-omit-frame-pointer"]}
 
 
+INSTRUMENTED = {"replay_range"}   # harnesses exercising header-only library code
+
+
 def lib_dir(variant):
     return os.path.join(BUILD, variant)
 
@@ -94,15 +97,27 @@ def build_lib(variant="plain"):
         lib = os.path.join(d, "src", "libUTAP.a")
         if not os.path.exists(lib):
             lib = os.path.join(d, "src", "libUTAP.so")
+        gen = os.path.join(d, "gen")
+        os.makedirs(gen, exist_ok=True)
+        sh([sys.executable, os.path.join(ROOT, "extract", "kinds.py"), os.path.join(REPO, "include/utap/common.h"),
+            os.path.join(gen, "kind_names.inc.new")], timeout=60)
+        _replace_if_changed(os.path.join(gen, "kind_names.inc.new"), os.path.join(gen, "kind_names.inc"))
         log("lib[%s] up to date in %.1fs" % (variant, time.time() - t0))
         return lib
+
+
+def _replace_if_changed(new, old):
+    if os.path.exists(old) and open(old).read() == open(new).read():
+        os.unlink(new)
+    else:
+        os.replace(new, old)
 
 
 def _newest(paths):
     return max(os.path.getmtime(p) for p in paths if os.path.exists(p))
 
 
-def build_harness(name, variant="plain", sources=None, extra=None, deps=None):
+def build_harness(name, variant="plain", sources=None, extra=None, deps=None, instrument=None):
     """compile harness/<name>.cpp (+sources) against the variant's libUTAP. Returns exe path."""
     lib = build_lib(variant)
     d = lib_dir(variant)
@@ -116,13 +131,24 @@ def build_harness(name, variant="plain", sources=None, extra=None, deps=None):
         need = (not os.path.exists(exe)) or os.path.getmtime(exe) < _newest(srcs + hdrs + [lib] + (deps or []))
         if need:
             t0 = time.time()
-            cmd = ["g++", "-std=c++17", "-O1", "-g", "-DUTAP_VERIF", "-DNDEBUG", "-w",
+            if instrument is None:
+                instrument = name in INSTRUMENTED
+            san = SAN_CXX[variant]
+            cmd = ["g++", "-std=c++17", "-O1", "-g1", "-DUTAP_VERIF", "-DNDEBUG", "-w",
                    "-I", os.path.join(REPO, "include"), "-I", os.path.join(REPO, "src"),
                    "-I", os.path.join(d, "src", "include"), "-I", os.path.join(d, "src"),
                    "-I", gen, "-I", HARNESS,
-                   "-I", "/usr/include/libxml2"] + SAN_CXX[variant] + srcs + \
-                  ["-o", exe, lib, "-lxml2", "-ldl"] + (extra or [])
-            sh(cmd, timeout=900)
+                   "-I", "/usr/include/libxml2"]
+            if instrument or not san:
+                sh(cmd + san + srcs + ["-o", exe, lib, "-lxml2", "-ldl"] + (extra or []), timeout=900)
+            else:
+                # harness code itself is not under test: compile it uninstrumented (3x faster), link the sanitizer runtime
+                objs = []
+                for s_ in srcs:
+                    o = exe + "." + os.path.basename(s_) + ".o"
+                    sh(cmd + ["-c", s_, "-o", o], timeout=900)
+                    objs.append(o)
+                sh(["g++"] + san + objs + ["-o", exe, lib, "-lxml2", "-ldl"] + (extra or []), timeout=900)
             log("harness %s[%s] built in %.1fs" % (name, variant, time.time() - t0))
     return exe
 
@@ -327,3 +353,38 @@ def read_ndjson(path):
             if line:
                 out.append(json.loads(line))
     return out
+
+
+# --------------------------------------------------------------------------- model_run jobs
+
+def run_jobs(jobs, run_dir, variant="asan", shards=None, timeout=3000, name="jobs"):
+    """run model_run over jobs (list of dicts with unique 'id') in parallel shards; returns {id: result}"""
+    exe = build_harness("model_run", variant)
+    shards = min(shards or NCPU, max(1, len(jobs)))
+    procs = []
+    env = dict(os.environ)
+    env.update({"ASAN_OPTIONS": "detect_leaks=0:abort_on_error=1:allocator_may_return_null=1",
+                "UBSAN_OPTIONS": "print_stacktrace=1:halt_on_error=0", "UTAP_VERIF_NO_DLOPEN": "1"})
+    for i in range(shards):
+        jp = os.path.join(run_dir, "%s-%d.in.ndjson" % (name, i))
+        op = os.path.join(run_dir, "%s-%d.out.ndjson" % (name, i))
+        write_ndjson(jp, jobs[i::shards])
+        procs.append((subprocess.Popen([exe, jp, op], env=env, stdout=subprocess.DEVNULL, stderr=subprocess.PIPE), jp, op))
+    res = {}
+    deadline = time.time() + timeout
+    for p, jp, op in procs:
+        try:
+            _, err = p.communicate(timeout=max(1, deadline - time.time()))
+        except subprocess.TimeoutExpired:
+            p.kill()
+            raise MachineryError("model_run shard timed out")
+        if p.returncode != 0:
+            raise MachineryError("model_run failed rc=%s: %s" % (p.returncode, (err or b"")[-2000:]))
+        for r in read_ndjson(op):
+            res[r["id"]] = r
+        os.unlink(jp)
+        os.unlink(op)
+    missing = [j["id"] for j in jobs if j["id"] not in res]
+    if missing:
+        raise MachineryError("model_run lost %d jobs, e.g. %s" % (len(missing), missing[:3]))
+    return res
